@@ -33,8 +33,45 @@ def setup(P):
     _st['param'] = param
 
 
+def nested_trigger_case(idx, rng, P, rep, prop):
+    """trigger() called from a callback that itself runs under trigger(): every delivery of both calls is typed 'triggered'
+    and happens exactly once."""
+    param = _st['param']
+    cls = type(f'NT{idx}', (param.Parameterized,), dict(a=param.Parameter(default=1), b=param.Parameter(default=2), e=param.Event()))
+    o = cls() if rng.random() < 0.7 else cls
+    inner = rng.choice(['b', 'e'])
+    log = []
+    state = dict(done=False)
+
+    def first(ev):
+        log.append(('first', ev.name, ev.type))
+        if not state['done']:
+            state['done'] = True
+            o.param.trigger(inner)
+    n_before = rng.randint(0, 1)
+    for k in range(n_before):
+        o.param.watch(lambda ev, k=k: log.append((f'before{k}', ev.name, ev.type)), 'a', onlychanged=rng.random() < 0.5, precedence=0)
+    o.param.watch(first, 'a', onlychanged=rng.random() < 0.5, precedence=1)
+    for k in range(rng.randint(1, 2)):
+        o.param.watch(lambda ev, k=k: log.append((f'after{k}', ev.name, ev.type)), 'a', onlychanged=rng.random() < 0.5, precedence=2)
+    o.param.watch(lambda ev: log.append(('inner', ev.name, ev.type)), inner, onlychanged=rng.random() < 0.5)
+    o.param.trigger('a')
+    rep.count('nested_trigger_cases')
+    rep.count('deliveries', len(log))
+    wrong = [x for x in log if x[2] != 'triggered']
+    names = [x[0] for x in log]
+    if wrong:
+        rep.violation(f'{prop}/event-type/trigger-inside-trigger-callback', f'trigger(a) whose callback calls trigger({inner}): deliveries {log}',
+                      case=dict(inner=inner, holder='instance' if not isinstance(o, type) else 'class'))
+    if len(set(names)) != len(names) or 'inner' not in names:
+        rep.violation(f'{prop}/exactly-once/trigger-inside-trigger-callback', f'deliveries {log}', case=dict(inner=inner))
+    rep.case(('nested-trigger', inner, n_before, len(log)), nontrivial=True)
+
+
 def run_case(idx, rng, P, rep, feats=None, prop='C03'):
     param = _st['param']
+    if rng.random() < 0.02:
+        return nested_trigger_case(idx, rng, P, rep, prop)
     level = 'class' if rng.random() < 0.25 else 'instance'
     feats = set(feats or FEATS)
     if rng.random() < 0.08:
